@@ -211,7 +211,12 @@ def h_representation(ctx, n):
     u.update(REP.IDENDITY)
     ctx.prove("C17.representation_switch_is_not_sticky", EQ(u.value(None, path, None), UND.Spot().value(None, path, None)),
               replay=(replay_update_sticky, lambda m: {"path": _vals(m, path)}))
-    # the same, through the products: one underlying object shared by two products priced with processes of different representation
+
+
+def h_shared_underlying(ctx, n):
+    """one underlying object shared by two products priced with processes of different representation: each product reads the
+    representation it was last updated to"""
+    path = sym_path(ctx, n)
     for cls in (UND.Spot, UND.LogSpot):
         if cls is UND.LogSpot:
             for x in path:
@@ -221,8 +226,11 @@ def h_representation(ctx, n):
         second = PROD.Product(payoff_underlying=shared, payoff=PAY.Forward(strike=0.0), maturity=1.0)
         first.update(REP.LOG)
         second.update(REP.IDENDITY)
+        fixed = np.array([1.0, 2.0])  # the same statement on one concrete path first: refuted at once when it is wrong
+        ctx.prove("C17.product_reads_the_representation_it_was_last_updated_to", bool(abs(float(second.payoff_underlying.value(None, fixed, None)) - float(cls().value(None, fixed, None))) < 1e-12),
+                  info={"underlying": cls.__name__, "path": [1.0, 2.0]}, replay=(replay_shared_underlying, lambda m: {"path": [1.0, 2.0]}))
         ctx.prove("C17.product_reads_the_representation_it_was_last_updated_to", EQ(second.payoff_underlying.value(None, path, None), cls().value(None, path, None)),
-                  info={"underlying": cls.__name__}, replay=(replay_shared_underlying, lambda m: {"path": _vals(m, path)}))
+                  info={"underlying": cls.__name__}, replay=(replay_shared_underlying, lambda m: {"path": _vals(m, path)}), timeout_ms=20000)
 
 
 def h_asian(ctx, n):
@@ -492,6 +500,7 @@ def harnesses(tier):
         hs.append(Harness(f"barrier.representation.{bt}", h_barrier_representation, {"n": 2, "bt": bt}, max_paths=20000, batch=20))
     hs.append(Harness("default.history", h_default_history, {"n": 2}, max_paths=4000, batch=20))
     hs.append(Harness("representation", h_representation, {"n": 2}, max_paths=2000))
+    hs.append(Harness("representation.shared_underlying", h_shared_underlying, {"n": 2}, max_paths=2000))
     hs.append(Harness("twin", h_twin, twin="must_fail"))
     return hs
 
@@ -499,7 +508,8 @@ def harnesses(tier):
 EXPECT = ["C17.call_minus_put_is_forward", "C17.call_spread_is_call_combination_and_nonneg", "C17.butterfly_is_call_combination", "C17.digital_call_plus_put_is_one",
           "C17.notional_scales_linearly", "C17.knock_in_plus_knock_out_is_vanilla", "C17.barrier_value_independent_of_earlier_paths",
           "C17.identity_and_log_representation_agree", "C17.representation_switch_is_not_sticky", "C17.average_between_path_extremes",
-          "C17.default_time_is_first_jump_below_threshold", "C17.nth_to_default_times_nondecreasing_in_n"]
+          "C17.default_time_is_first_jump_below_threshold", "C17.nth_to_default_times_nondecreasing_in_n",
+          "C17.default_times_of_a_path_do_not_depend_on_the_paths_valued_before", "C17.product_reads_the_representation_it_was_last_updated_to"]
 
 
 # stronger than the property (which only asks for a value between the extremes): reported, not claimed
